@@ -36,7 +36,18 @@ def _case(name, thorough):
         if n == name:
             names = {}
             node = IR.to_ir(sch, "", names)
-            parsed = S.parse_schema(copy.deepcopy(sch))
+            try:
+                parsed = S.parse_schema(copy.deepcopy(sch))
+            except Exception as e:
+                from vf.report import SetupFailure
+                raise SetupFailure(
+                    f"family:{n}", f"parse_schema raised {type(e).__name__}: {e} on the specification-valid schema {n} of the family",
+                    "import sys, os, copy\nsys.path[:0] = [os.environ.get('VF_ROOT', '/verif'), os.environ.get('VF_REPO', '/repo')]\n"
+                    "from vf import family\nimport fastavro._schema_py as S\n"
+                    f"sch = [s for n, t, s in family.family() if n == {n!r}][0]\n"
+                    "try:\n    S.parse_schema(copy.deepcopy(sch))\nexcept Exception as e:\n"
+                    "    print('REPRODUCED: parse_schema rejects a valid schema:', type(e).__name__, e); sys.exit(1)\n"
+                    "print('not reproduced'); sys.exit(0)\n")
             cfg = CFG_T if thorough else CFG
             if n in SYM_LEAVES:
                 cfg = cfg.but(strs="sym", floats="sym")
